@@ -458,6 +458,10 @@ class RaftNode(Entity):
 
             if existing and existing.term != entry_term:
                 self._log.truncate_from(idx)
+                # Entries this node proposed at these indices are gone; their futures
+                # must not be resolved by whatever gets committed there instead.
+                for stale in [i for i in self._pending_futures if i >= idx]:
+                    del self._pending_futures[stale]
                 self._log.append(entry_term, entry_dict["command"])
             elif not existing:
                 self._log.append(entry_term, entry_dict["command"])
